@@ -166,7 +166,7 @@ func runC15(c *Ctx) {
 			if c.wordBits() == 32 {
 				top = "2147483648"
 			}
-			lz := "bin<>>>(" + top + ", call<math/bits.LeadingZeros>(conv<uint>(bin<->(p0, 1))))"
+			lz := "bin<>>>(" + top + ", alt(call<math/bits.LeadingZeros>(conv<uint>(bin<->(p0, 1))), conv<uint>(call<math/bits.LeadingZeros>(conv<uint>(bin<->(p0, 1))))))"
 			_, ok := ana.MatchAny(t, "bin<<<>(1, bin<&>("+core+", "+ws+"))", "bin<<<>(1, "+core+")", "bin<<<>(1, conv<uint>("+core+"))", "bin<<<>(1, bin<&>(conv<uint>("+core+"), "+ws+"))",
 				lz, "conv<int>("+lz+")",
 				// 1 << (W-1 - LeadingZeros(y)): W-1-LeadingZeros(y) = Len(y)-1
